@@ -7733,7 +7733,8 @@ class TreeSequence:
             if len(U) == 0:
                 raise ValueError("Elements of sample_sets cannot be empty.")
             for u in U:
-                if not self.node(u).is_sample():
+                # self.node() accepts negative IDs as Python indexes: not valid here
+                if u < 0 or not self.node(u).is_sample():
                     raise ValueError("Not all elements of sample_sets are samples.")
 
         W = np.array([[float(u in A) for A in sample_sets] for u in self.samples()])
